@@ -69,8 +69,9 @@ claim("C01",
       "precondition as solver constraint, forked at itertools.repeat) with random.shuffle replaced by a symbolic "
       "permutation: per path ONE integer query proves for all n! shuffle outcomes that every vertex fills exactly "
       "jds[v][k] slots, slots stay in 0..N-1, call counts/arity are right and the emitted edges are the callbacks' returns",
-      "bounded: N<=3 (quick) / 5 (thorough), entries <=2, <=3 columns, 16 motif configurations; handshake "
-      "precondition assumed; the network variant forks on the permutation (hashing) and is explored at N<=3/4",
+      "bounded: N<=3 (quick) / 5 (thorough), entries <=2, <=3 columns, 24 motif configurations (equal edge counts, "
+      "multi-orbit motif followed by another, orbits out of column order) and a second call on the same generator "
+      "object; handshake precondition assumed; the network variant forks on the permutation and is explored at N<=3/4",
       "DESIGN.md 4/C01")
 claim("C02",
       "same symbolic exploration as C01; on every path the three columns must be parallel, every entry a pair of "
@@ -130,7 +131,8 @@ claim("C09",
       "sequence) inside the bound is explored and checked for exact edge cover, clique-ness, size bound, empty working "
       "graph and intact isolated maximal cliques",
       "bounded exhaustive symbolic exploration: all graphs <=5 vertices x m0 2..6, all 6-vertex graphs at m0=2 (quick) "
-      "and m0<=4 (thorough), 6-7 vertex templates; the cover is concrete on each path",
+      "and m0<=4 (thorough), 6-7 vertex templates, reversed insertion / gapped labels / object histories for n<=5; the "
+      "cover is concrete on each path",
       "DESIGN.md 4/C09")
 claim("C10",
       "MPCC runs on graphs whose adjacency bits are solver variables and with the shuffle a symbolic permutation that is "
